@@ -188,6 +188,7 @@ func (e *Engine) VerifyFunc(pkgPath, key string, modular bool) (rep *FuncReport,
 			err = fmt.Errorf("%s.%s: %v", pkgPath, key, r)
 		}
 	}()
+	e.bind()
 	pkg := e.Pkgs[pkgPath]
 	sp := e.Specs[pkgPath]
 	var fn *types.Func
@@ -733,6 +734,7 @@ func (e *Engine) SweepFunc(pkgPath string, fn *types.Func, req func(params map[s
 
 // VerifyLemmas turns the lemma declarations of a contract file into obligations (no code involved).
 func (e *Engine) VerifyLemmas(pkgPath string) *FuncReport {
+	e.bind()
 	sp := e.Specs[pkgPath]
 	e.consts = nil
 	e.fresh = 0
